@@ -251,6 +251,30 @@ def _pump_map_call(f):
     return None
 
 
+def _is_curve_values(v):
+    """the stored term is, up to array/list conversion, `map(lambda f, q: f.get_pressure(q), <std type functions of the rows>,
+    <volume flow>)` (or the comprehension over zip of the two): no sign, factor or offset between the curve value and PL"""
+    from ..arrnf import contains
+    while v[0] == "call" and v[1] in (("x", "numpy.array"), ("x", "numpy.asarray"), ("x", "builtins.list"), ("x", "builtins.tuple")) \
+            and len(v[2]) == 1:
+        v = v[2][0]
+    curve = None
+    if v[0] == "call" and v[1] == ("x", "builtins.map") and len(v[2]) == 3 and v[2][0][0] == "lambda" and v[2][0][1] == 2:
+        body = v[2][0][2]
+        if body == ("call", ("attr", ("b", 0), "get_pressure"), (("b", 1),), ()):
+            curve = v[2][1]
+    elif v[0] == "comp" and v[1] == "ListComp" and len(v[3]) == 1 and not v[3][0][2]:
+        it = v[3][0][1]
+        if v[2] == ("call", ("attr", ("b", 0, 0), "get_pressure"), (("b", 0, 1),), ()) and it[0] == "call" \
+                and it[1] == ("x", "builtins.zip") and len(it[2]) == 2:
+            curve = it[2][0]
+    if curve is None:
+        return False
+    # the functions are those of the rows' own std types: looked up in net.std_types['pump'] through the STD_TYPE column
+    return any(x[0] == "idx" and x[2] and x[2][-1] == ("c", "pump") for x in _walk(curve)) \
+        and any(x == ("attr", ("n", "cls"), "STD_TYPE") for x in _walk(curve))
+
+
 def r3_3(run):
     ix = run.index
     # ---- pressure circulation pump
@@ -315,7 +339,7 @@ def r3_3(run):
     mp = _pump_map_call(f)
     ra = ANF(ix, f).run()
     pl_store = [s_ for s_ in ra.stores() if len(s_.index) == 2 and s_.index[0] == FULL and s_.index[1] == ("k", "idx_branch.PL")]
-    ok = mp is not None and len(pl_store) == 1 and any(x[0] == "call" and x[1] == ("x", "builtins.map") for x in _walk(pl_store[0].value))
+    ok = mp is not None and len(pl_store) == 1 and _is_curve_values(pl_store[0].value)
     run.ob("pump|PL<-get_pressure", ok,
            "PL is the array of get_pressure(volume flow) values, one per row, of the std type functions listed for the rows", run.where(f, f.node))
     ex = ix.lookup_method(c, "extract_results")
